@@ -12,7 +12,10 @@
    or through a typedef.  mode "path": no constraints; mode "data": mandatory,
    default, min-/max-elements, one to three unique statements, default /
    mandatory choices (respecting RFC 6020: no default on a mandatory leaf, no
-   mandatory node under a default case, unique leaves without defaults).       *)
+   mandatory node under a default case, unique leaves without defaults);
+   mode "sparse": as "data", but mandatory leaves and min-elements are rare,
+   containers have presence, and choices (often mandatory, nested in cases)
+   are frequent - levels where a nested mandatory node is the only one.        *)
 EXTENDS SchemaNodes, TLC
 
 Dig(i) == CASE i = 1 -> "a" [] i = 2 -> "b" [] i = 3 -> "c" [] i = 4 -> "d" [] OTHER -> "e"
@@ -29,15 +32,19 @@ AnyMandatory(kids) ==
 
 RandLeaf(nm, mode) ==
   LET t == RandomElement({"string", "tstring", "int8", "tint8", "empty", "tempty"})
-      r == RandomElement(1..4) IN
+      r == RandomElement(1..4)
+      rare == RandomElement(1..4) IN
   IF mode = "path" THEN Leaf(nm, t)
-  ELSE IF r = 1 THEN LeafM(nm, t)
+  ELSE IF r = 1 /\ (mode # "sparse" \/ rare = 1) THEN LeafM(nm, t)
   ELSE IF r = 2 /\ ~IsEmptyType(t) THEN LeafD(nm, t, IF BaseType(t) = "int8" THEN "7" ELSE "dv")
   ELSE Leaf(nm, t)
 RandLL(nm, mode) ==
   LET t == RandomElement({"string", "int8", "tint8"})
-      mm == RandomElement({<<0, 0>>, <<0, 0>>, <<1, 0>>, <<0, 2>>, <<1, 2>>, <<2, 3>>}) IN
-  IF mode = "path" THEN LL(nm, t) ELSE LLmm(nm, t, mm[1], mm[2])
+      mm == RandomElement({<<0, 0>>, <<0, 0>>, <<1, 0>>, <<0, 2>>, <<1, 2>>, <<2, 3>>})
+      rare == RandomElement(1..4) IN
+  IF mode = "path" THEN LL(nm, t)
+  ELSE IF mode = "sparse" /\ rare # 1 THEN LLmm(nm, t, 0, mm[2])
+  ELSE LLmm(nm, t, mm[1], mm[2])
 
 \* one to three unique statements over the candidate leaves (indices ul of kids)
 RandUniq(kids, ul) ==
@@ -73,13 +80,15 @@ RandCases(choice, pos, d, n, mode) ==
           <<IF short = 1 THEN RandNode(cn, pos \o Dig(n), 0, mode)          \* short-hand case: a leaf / leaf-list
             ELSE Case(cn, RandKids(cn, pos \o Dig(n), d, m, mode))>>
 RandNode(nm, pos, d, mode) ==
-  LET k == RandomElement(1..10) IN
+  LET k0 == RandomElement(1..10)
+      kc == RandomElement(1..2)
+      k  == IF mode = "sparse" /\ kc = 1 /\ k0 \in 4..7 THEN 8 ELSE k0 IN      \* sparse: more choices
   IF d = 0 \/ k <= 3 THEN (IF k = 10 \/ k = 3 THEN RandLL(nm, mode) ELSE RandLeaf(nm, mode))
   ELSE IF k <= 5 THEN
        LET nk   == RandomElement(0..3)
            kids == RandKids(nm, pos, d - 1, nk, mode)
            pr   == RandomElement(1..2) IN
-       IF pr = 1 THEN PCont(nm, kids) ELSE Cont(nm, kids)
+       IF pr = 1 \/ mode = "sparse" THEN PCont(nm, kids) ELSE Cont(nm, kids)
   ELSE IF k <= 7 THEN
        LET kt   == RandomElement({"string", "int8", "tstring"})
            nk   == RandomElement(0..3)
@@ -88,13 +97,15 @@ RandNode(nm, pos, d, mode) ==
            ul   == {i \in 2..Len(kids) : kids[i].kind = "leaf" /\ kids[i].def = "" /\ ~IsEmptyType(kids[i].typ)}
            mm   == RandomElement({<<0, 0>>, <<0, 0>>, <<1, 0>>, <<0, 2>>, <<1, 2>>})
            uq   == RandUniq(kids, ul)
-       IN IF mode = "path" THEN List(nm, key, kids) ELSE ListX(nm, key, mm[1], mm[2], uq, kids)
+           rare == RandomElement(1..4)
+       IN IF mode = "path" THEN List(nm, key, kids)
+          ELSE ListX(nm, key, IF mode = "sparse" /\ rare # 1 THEN 0 ELSE mm[1], mm[2], uq, kids)
   ELSE LET nc == RandomElement(1..3)
            cs == RandCases(nm, pos, d - 1, nc, mode)
            r  == RandomElement(1..3) IN
        IF mode = "path" THEN Choice(nm, cs)
        ELSE IF r = 1 /\ ~AnyMandatory(CaseKidsR(cs[1])) THEN ChoiceD(nm, cs[1].name, cs)
-       ELSE IF r = 2 THEN ChoiceM(nm, cs)
+       ELSE IF r = 2 \/ (r = 3 /\ mode = "sparse") THEN ChoiceM(nm, cs)
        ELSE Choice(nm, cs)
 
 RandSchema(d, mode) == LET n == RandomElement(2..4) IN RandKids("", "", d, n, mode)
